@@ -241,6 +241,9 @@ func H17_failover() {
 	}
 	n := vChoose(maxEp+1, "endpoints")
 	var eps []string
+	if n == 0 && vChoose(2, "empty-list-not-nil") == 1 {
+		eps = []string{} // "crypki_endpoints": []
+	}
 	firstOK := -1
 	for i := 0; i < n; i++ {
 		e := s17Endpoint{outcome: vChoose(5, "outcome")}
